@@ -210,11 +210,14 @@ def run(ctx, shared=True):
                    "then continues that population with the new flow as proposal", disc=f"overwrite|{i}")
     from . import c12
     if shared:
-        reuse(ctx, c12.run, ("C12.cad",), "C14cad", "cadence rule shared with C12: sample_posterior rewrites /flow and the configuration before sampling, so every run that has a "
+        reuse(ctx, lambda c: c12.run(c, shared=False), ("C12.cad",), "C14cad", "cadence rule shared with C12: sample_posterior rewrites /flow and the configuration before sampling, so every run that has a "
               "checkpoint callback must end by writing its own checkpoint -- otherwise the file pairs the new flow with the checkpoint of an earlier run")
     if shared:
-        reuse(ctx, c12.run, ("C12.blob",), "C14blob", "blob-writer rule shared with C12: sample_posterior has already replaced /flow when the sampler stores its checkpoint, so a payload that is "
+        reuse(ctx, lambda c: c12.run(c, shared=False), ("C12.blob",), "C14blob", "blob-writer rule shared with C12: sample_posterior has already replaced /flow when the sampler stores its checkpoint, so a payload that is "
               "not written (or an old one that is kept) pairs the new flow with the particles of an earlier run")
+    if shared:
+        reuse(ctx, lambda c: c12.run(c, shared=False), ("C12.probe",), "C14probe", "probe rule shared with C12: sample_posterior replaces /flow and the configuration whether or not the signature probe "
+              "recognises the sampler; a checkpointing sampler the probe does not recognise runs without a file callback, so the file pairs the new flow with the checkpoint an earlier run left")
     from . import c13
     if shared:
         reuse(ctx, c13.run, ("C13.flow", "C13.nomut"), "C14rt", "flow round-trip rules shared with C13: sample_posterior saves the flow again on every call, also the one a resumed instance loaded from the file, "
@@ -297,4 +300,10 @@ NEUTRALS = [
 ANCHORS = [
     'aspire.aspire:Aspire.sample_posterior',
     'aspire.aspire:Aspire.fit',
+]
+
+MUTANTS += [
+    M("blackjax sample() takes the checkpoint options through **kwargs (front end stops recognising it)", "src/aspire/samplers/smc/blackjax.py", "checkpoint_every: int | None = None,\n        checkpoint_file_path: str | None = None,\n        resume_from: str | bytes | dict | None = None,\n    ):\n        \"\"\"Sample using BlackJAX SMC.",
+      "resume_from: str | bytes | dict | None = None,\n        **kwargs,\n    ):\n        \"\"\"Sample using BlackJAX SMC.", "C14probe.probe",
+      more=[("checkpoint_every=checkpoint_every,\n            checkpoint_file_path=checkpoint_file_path,\n            resume_from=resume_from,\n        )\n\n    def mutate(self, particles, beta, n_steps=None):\n        \"\"\"Mutate particles using BlackJAX", "resume_from=resume_from,\n            **kwargs,\n        )\n\n    def mutate(self, particles, beta, n_steps=None):\n        \"\"\"Mutate particles using BlackJAX")]),
 ]
